@@ -1092,6 +1092,13 @@ func (interp *Interpreter) cfg(root *node, sc *scope, importPath, pkgName string
 
 		case blockStmt:
 			wireChild(n)
+			if n.anc != nil && (n.anc.kind == forStmt7 || n.anc.kind == rangeStmt) {
+				// The body of a loop starts with loop variable nodes, which wireChild
+				// does not chain to the block when they are not followed by a statement.
+				if l := n.lastChild(); l.kind == identExpr && l.tnext == nil {
+					l.tnext = n
+				}
+			}
 			if len(n.child) > 0 {
 				l := n.lastChild()
 				n.findex = l.findex
